@@ -4,6 +4,42 @@ import json, os
 ROOT = os.path.dirname(os.path.abspath(__file__))
 
 CLAIMED = {
+ 'C09': dict(
+    category='other',
+    text='Bounded-exhaustive symbolic execution of the real query and navigation code. Queries: a population of 3 (4) instances whose integer and '
+         'boolean attribute values, filter operands and thresholds are symbolic and UNBOUNDED, so every ordering and tie pattern of the sort keys '
+         'and every filter outcome is a solver-decided branch; every sequence of up to 2 (3) operators out of where_eq on one/two/referential attributes, '
+         'dict filter, lambdas, order_by / reverse_order_by on one/two attributes, through select_many/select_one/select_any and QuerySet.first/last, '
+         'against a list-comprehension + stable insertion sort oracle. Navigation: 20 chain templates (length 1-4, from None/instance/QuerySet/list/'
+         'generator, through an association class both as two-hop and explicitly, reflexive with phrases, subtype navigation, trailing lambda/where_eq/'
+         'order_by with symbolic operands) over EVERY valid link state of the associations crossed, against relational composition with '
+         'first-occurrence de-duplication. Verdict "Confirmed over all paths" per condition.',
+    design_ref='DESIGN.md section 5, C09',
+    note='Pools: 3/4 queried instances, navigation A:2 B:3 D:2 L:2 X:1 Y:1; link states enumerated through a solver-chosen table index; at most one deleted '
+         'instance; Class.__str__ stubbed; CrossHair+z3+CPython trusted.',
+    technique='bounded symbolic execution of the real code (CrossHair + z3); attribute values symbolic-through'),
+ 'C16': dict(
+    category='other',
+    text='Bounded-exhaustive: the solver picks an index into the table of ALL successor maps over n labelled instances (n <= 6 quick, 7 thorough: every '
+         'partition into chains, every order inside a chain, every creation order), both phrases; all rings; the empty set; and, for termination, all '
+         'partial injective successor maps (mixed chains and several rings) x all non-empty subsets for n <= 4 (5). The real sort_reflexive runs under '
+         'CrossHair; "Confirmed over all paths" per shard. Oracle: every member once, each chain contiguous from its head in direction; ring once around '
+         'from the first member.',
+    design_ref='DESIGN.md section 5, C16',
+    note='Pure case-split (instances are hashed); termination observed through a fuel bound on xtuml.meta.navigate_one; order between chains is not '
+         'constrained; larger sets are outside the claim.',
+    technique='bounded symbolic execution of the real code (CrossHair + z3), exhaustive over arrangements'),
+ 'C19': dict(
+    category='other',
+    text='Symbolic execution of MetaClass.new / default_value / the id generators: every count of positional arguments x every keyword subset on a class '
+         'with one attribute per core type, two ids and a referential attribute, with all supplied bool/int/id values symbolic and unbounded; '
+         'three-creation histories for id freshness; IntegerGenerator as an inductive step from an ARBITRARY symbolic state c (peek returns c and changes '
+         'nothing, next returns c and leaves c+1, any interleaving of up to 4 calls) plus the base case 1,2,3,...; UUIDGenerator with uuid4 replaced by its '
+         'contract (symbolic 128-bit value with RFC 4122 bits); user-supplied generators with symbolic outputs; unknown type names rejected with MetaException. '
+         '"Confirmed over all paths" per condition.',
+    design_ref='DESIGN.md section 5, C19',
+    note='real/string argument values are fixed constants (only stored); uuid4 freshness assumed; type-name pool of 16 names.',
+    technique='bounded symbolic execution of the real code (CrossHair + z3); generator state symbolic (inductive step)'),
  'C02': dict(
     category='other',
     text='Inductive step, bounded-exhaustive by symbolic execution: for each of 10 association shapes (1:M, 1:1, conditional/unconditional, '
